@@ -310,7 +310,7 @@ pub fn check_unsafe(c: &UnsafeCase, acc: &mut Acc, record: bool) -> Verdict {
 }
 
 pub fn run_c19(cx: &Cx) -> PropResult {
-    let per_shard = cx.n(8_000, 300_000);
+    let per_shard = cx.n(40_000, 1_000_000);
     let lines = std::sync::Mutex::new(Vec::new());
     let acc = parallel(cx, &|shard, acc| {
         run_witnesses(cx, acc, &lines, shard);
